@@ -129,7 +129,10 @@ pub fn save_replay<C: Check>(case: &C::Case, v: &Violation, dir: &Path) -> Strin
 }
 
 pub fn found_dir(id: &str) -> PathBuf {
-    PathBuf::from(format!("/verif/replays/{id}/found"))
+    match std::env::var("VERIF_FOUND_DIR") {
+        Ok(d) if !d.is_empty() => PathBuf::from(d).join(id),
+        _ => PathBuf::from(format!("/verif/replays/{id}/found")),
+    }
 }
 
 /// Run one shard of a check's generated search. Never panics on a violation; returns the stats.
